@@ -1046,13 +1046,32 @@ def run(ctx):
         return False
 
     fxx = _expand(prog, fxr, local_only=True)
-    fal = P_.aliases(fxx)
     fpar = [a.arg for a in fxr.node.args.args]
+    carrier_mode = len(fpar) < 4
+    if carrier_mode:
+        # another interface: base URI and part map travel in one parameter object.  Its members are read in place and the function
+        # is taken with the constructor's parameters where it took the object
+        from sa import inline as _inl13
+        from sa.carrier import open_carriers as _open13
+        from sa.types import Types as _Types13
+
+        _inl13.use_types(_Types13(prog, M))
+        try:
+            fxx = _expand(prog, fxr, depth=3, local_only=True)
+        finally:
+            _inl13.use_types(None)
+        fxx, _newp = _open13(prog, fxr, fxx)
+        fpar = [a.arg for a in fxx.args.args]
+    fal = P_.aliases(fxx)
     if len(fpar) < 4:
-        # the rule reads from_xml(cls, base_uri, rel, parts); another interface (say, one object carrying base URI and part map)
-        # is an analysis gap, not a counter-fact
         raise AnalysisError("_Relationship.from_xml%s: parameters (base_uri, rel, parts) not recognised" % (tuple(fpar),))
-    bp, rp, pp = fpar[1], fpar[2], fpar[3]
+    # by role: the relationship element is the parameter whose Id is read, the part map the one that is indexed, the base URI the other
+    rp = next((p_ for p_ in fpar[1:] if any(isinstance(x, ast.Attribute) and x.attr == "rId" and dotted(x.value) == p_ for x in ast.walk(fxx))), None)
+    pp = next((p_ for p_ in fpar[1:] if any(isinstance(x, ast.Subscript) and dotted(x.value) == p_ for x in ast.walk(fxx))), None)
+    rest_ = [p_ for p_ in fpar[1:] if p_ not in (rp, pp)]
+    if rp is None or pp is None or len(rest_) != 1:
+        raise AnalysisError("_Relationship.from_xml%s: the roles of the parameters (element, part map, base URI) are not recognised" % (tuple(fpar),))
+    bp = rest_[0]
     ip_ = [a.arg for a in rinit.node.args.args][1:]
     fields_ok = all(stored_from_param(rinit, "_" + p) == p for p in ip_) and ip_ == ["base_uri", "rId", "reltype", "target_mode", "target"]
     probs, n_rows = [], 0
@@ -1101,6 +1120,13 @@ def run(ctx):
     from sa.desugar import lift_generators as _lift
 
     lfx = _lift(_expand(prog, lf, local_only=True))   # `valid = (f(e) for e in lst if ok(e))` reads as a nested generator function
+    if carrier_mode:
+        _inl13.use_types(_Types13(prog, M))
+        try:
+            lfx = _expand(prog, lf, depth=3, local_only=True)
+        finally:
+            _inl13.use_types(None)
+        lfx = _lift(_open13(prog, lf, lfx)[0])
     lal, lval = P_.aliases(lfx), P_.value_aliases(lfx)
     lpar = [a.arg for a in lf.node.args.args]
     loops = [n for n in ast.walk(lfx) if isinstance(n, ast.For) and (dotted(n.iter) or "").endswith(".relationship_lst")
